@@ -28,7 +28,9 @@ constexpr int Dim = DIM;
 constexpr long NbData = Dim + NX;
 using Config = TbfSpacialConfiguration<Real, Dim>;
 using SI = TbfMortonSpaceIndex<Dim, Config, false>;
-using Tree = TbfTreeTsm<Real, Real, NbData, uint64_t, gf::NEVAL + 1, gf::Val, gf::Val, SI>;
+using TreeBase = TbfTreeTsm<Real, Real, NbData, uint64_t, gf::NEVAL + 1, gf::Val, gf::Val, SI>;
+// the source and target trees are protected members: a derived class may name them (used for the structure / construction oracles)
+struct Tree : public TreeBase { using TreeBase::TreeBase; auto& sourceTree(){ return this->treeSource; } auto& targetTree(){ return this->treeTarget; } };
 using Kernel = probe::GfKernel<Real, SI>;
 using SeqAlgo = TbfAlgorithmTsm<Real, Kernel, SI>;
 #if RT == 1
@@ -293,6 +295,76 @@ std::string propTsm(const FmmCase& c, const std::string& prop){
     st.cls(c.variant == 1 ? "ctor:configuration-only" : "ctor:kernel-given");
 #endif
 
+    // ---- C13 / C07 / C06 on target/source trees: structure and construction of both trees, then move / rebuild / execute cycles
+    if(prop == "C13" || prop == "C07" || prop == "C06"){
+        FmmCase cc = c;
+        auto treeR = buildTree(cc, config, inS, inT);
+        const long bsUsedS = treeR->getNbElementsPerGroupSource(), bsUsedT = treeR->getNbElementsPerGroupTarget();
+        rm::ModelTree rs = ms, rt = mtg;
+        auto rowsS = inS.rows, rowsT = inT.rows;
+        auto structural = [&](const char* when) -> std::string {
+            std::string e = fh::checkStructure<Dim>(treeR->sourceTree(), rs, bsUsedS, ogpp);
+            if(!e.empty()) return std::string(when) + " source tree structure: " + e;
+            e = fh::checkStructure<Dim>(treeR->targetTree(), rt, bsUsedT, ogpp);
+            if(!e.empty()) return std::string(when) + " target tree structure: " + e;
+            e = fh::checkConstruction<Dim>(treeR->sourceTree(), rs, rowsS, false);
+            if(!e.empty()) return std::string(when) + " source tree: " + e;
+            e = fh::checkConstruction<Dim>(treeR->targetTree(), rt, rowsT, false);
+            if(!e.empty()) return std::string(when) + " target tree: " + e;
+            return "";
+        };
+        std::string e = structural("after construction");
+        if(!e.empty()) return e;
+        std::vector<gf::Val> acc(cc.tpos.size(), gf::zero());
+        probe::Ctx ctxR(c.salt); 
+        auto executeR = [&]() -> std::string {
+            ctxR.reset(); ctxR.multAddr.clear(); ctxR.localAddr.clear();
+            ctxR.dim = Dim; ctxR.height = H; ctxR.base = H - 1; ctxR.tagSrc = 0; ctxR.tagTgt = 1;
+            ctxR.leafOf[0] = &rs.leafOf; ctxR.leafOf[1] = &rt.leafOf; ctxR.rows[0] = &rowsS; ctxR.rows[1] = &rowsT;
+            SeqAlgo seq(config, Kernel(&ctxR));
+            seq.execute(*treeR);
+            if(!ctxR.errors.empty()) return "arguments after rebuild: " + ctxR.errors.front();
+            rm::Expect exr(ctxR.P, rs, false, 0);
+            std::map<Coord, gf::Val> perLeaf;
+            for(size_t i = 0 ; i < acc.size() ; ++i){
+                const Coord T = rt.leafOf[i];
+                auto it = perLeaf.find(T);
+                if(it == perLeaf.end()){ gf::Val v = gf::zero(); if(H > 2) gf::addPlain(v, exr.local(H - 1, T, 2)); gf::addPlain(v, exr.nearField(T, -1, true)); it = perLeaf.emplace(T, v).first; }
+                gf::addPlain(acc[i], it->second);
+            }
+            return "";
+        };
+        auto checkAcc = [&](const char* when) -> std::string {
+            long nb = 0;
+            std::string r = fh::checkParticleValues<Dim>(treeR->targetTree(), rt, [&](const Coord&, long id){ return acc[size_t(id)]; }, nb);
+            return r.empty() ? r : std::string(when) + ": " + r;
+        };
+        e = executeR(); if(!e.empty()) return e;
+        e = checkAcc("after the first execution"); if(!e.empty()) return e;
+        long nbRebuilds = 0;
+        for(const auto& cyc : cc.cycles){
+            std::map<long, Pos4> mv[2];
+            for(const MoveOp& m : cyc){ auto& base = m.set ? cc.tpos : cc.pos; if(m.index >= 0 && size_t(m.index) < base.size()){ mv[m.set ? 1 : 0][m.index] = m.pos; base[size_t(m.index)] = m.pos; } }
+            rm::ModelTree ns, nt; ns.buildFrom(cc, cc.pos); nt.buildFrom(cc, cc.tpos);
+            if(!ns.allInBox || !ns.allSound || !nt.allInBox || !nt.allSound) return "SKIP generator soundness (moved position)";
+            treeR->applyToAllLeavesSource([&](auto&& header, const long int* idx, auto&& data, auto&&){ for(long i = 0 ; i < header.nbParticles ; ++i){ auto it = mv[0].find(idx[i]); if(it != mv[0].end()) for(int d = 0 ; d < Dim ; ++d) data[size_t(d)][i] = Real(it->second[size_t(d)]); } });
+            treeR->applyToAllLeavesTarget([&](auto&& header, const long int* idx, auto&& data, auto&&){ for(long i = 0 ; i < header.nbParticles ; ++i){ auto it = mv[1].find(idx[i]); if(it != mv[1].end()) for(int d = 0 ; d < Dim ; ++d) data[size_t(d)][i] = Real(it->second[size_t(d)]); } });
+            for(const auto& kv : mv[0]) for(int d = 0 ; d < Dim ; ++d) rowsS[size_t(kv.first)][size_t(d)] = double(Real(kv.second[size_t(d)]));
+            for(const auto& kv : mv[1]) for(int d = 0 ; d < Dim ; ++d) rowsT[size_t(kv.first)][size_t(d)] = double(Real(kv.second[size_t(d)]));
+            rs = ns; rt = nt;
+            treeR->rebuild(); nbRebuilds += 1;
+            e = structural("after rebuild"); if(!e.empty()) return e;
+            e = checkAcc("results preserved by rebuild"); if(!e.empty()) return e;
+            bool zero = true;
+            treeR->applyToAllCellsSource([&](const long, auto&&, auto&& m, auto&&){ if(!gf::isZero(m->get())) zero = false; });
+            treeR->applyToAllCellsTarget([&](const long, auto&&, auto&&, auto&& l){ if(!gf::isZero(l->get())) zero = false; });
+            if(!zero) return "cell expansions are not reset to zero by rebuild (target/source tree)";
+            e = executeR(); if(!e.empty()) return e;
+            e = checkAcc("after rebuild + execution"); if(!e.empty()) return e;
+        }
+        st.cls("tsm-rebuilds", nbRebuilds);
+    }
+
     // ---- classification
     st.cls("H=" + std::to_string(H));
     bool tgtOnly = false, srcOnly = false;
@@ -325,6 +397,7 @@ pbt::GenCfg cfgFor(const std::string& prop, const hc::Args& a){
     g.schedules = true; g.executors = 1 << RT; g.variants = 2; g.varyThreads = (RT != 3);
 #endif
     if(prop == "C12") g.histories = true;
+    if(prop == "C13"){ g.cycles = true; g.maxCycles = 3; g.lstops = false; }
     return g;
 }
 
